@@ -114,8 +114,12 @@ pub fn check_program(ctx: &mut Ctx, start: &Pos, ops: &[Op]) -> Result<(), Viola
             }
             Op::Offer(c) => {
                 let got = g.offer_draw(bridge::col(*c));
-                if got != open {
-                    ctx.fail(if open { "game:offer-refused" } else { "game:action-accepted-after-result" }, format!("{}: offer_draw returned {}", name, got), case())?;
+                if got && !open {
+                    ctx.fail("game:action-accepted-after-result", format!("{}: offer_draw returned true after the game had a result", name), case())?;
+                }
+                if !got && open {
+                    // the statement does not oblige an open game to take every offer
+                    ctx.class("op:offer-refused-while-open(not asserted)");
                 }
                 if got {
                     m.log.push(Act::Offer(*c));
@@ -123,8 +127,11 @@ pub fn check_program(ctx: &mut Ctx, start: &Pos, ops: &[Op]) -> Result<(), Viola
             }
             Op::Resign(c) => {
                 let got = g.resign(bridge::col(*c));
-                if got != open {
-                    ctx.fail(if open { "game:resign-refused" } else { "game:action-accepted-after-result" }, format!("{}: resign returned {}", name, got), case())?;
+                if got && !open {
+                    ctx.fail("game:action-accepted-after-result", format!("{}: resign returned true after the game had a result", name), case())?;
+                }
+                if !got && open {
+                    ctx.class("op:resignation-refused-while-open(not asserted)");
                 }
                 if got {
                     m.log.push(Act::Resign(*c));
